@@ -177,6 +177,10 @@ def malformed_heads(rng, n):
     for m, _ in METHODS:                      # every method with a target that only QUrl refuses
         for t in (b"//../secret.txt", b"//-/x", b"//a:b/", b"//["):
             outs.append(m + b" " + t + b" HTTP/1.1")
+    for j, (hn, hv) in enumerate(SEMANTIC):   # refused heads that carry headers a server might act on before it has judged the target
+        t = (b"//[::1/upload", b"//a:b/", b"/%zz%", b"//-/x")[j % 4]
+        outs.append(METHODS[j % len(METHODS)][0] + b" " + t + b" HTTP/1.1\r\n" + hn + b": " + hv + b"\r\nContent-Length: 3")
+        outs.append(b"POST /x HTTP/1.2\r\n" + hn + b": " + hv)
     for _ in range(max(0, n // 8)):
         host = rng.bytes(rng.range(0, 6), b"ab.-_~:@0189Z")
         outs.append(rng.choice(METHODS)[0] + b" //" + host + rng.choice([b"", b"/", b"/p", b"/p?q=1"]) + b" HTTP/1.1")
